@@ -32,6 +32,8 @@ var tmpls = []vlib.Tmpl{
 	vlib.T("state/oper-reason"), vlib.T("state/nbr/v"), vlib.T("state/nbr/v"),
 	// (appended) several leaf-lists side by side in one container
 	vlib.T("types/ll-i8"), vlib.T("types/ll-u8"), vlib.T("types/ll-str"),
+	// (appended) two nodes below a container at depth three (long common prefixes)
+	vlib.T("plain/l1/cfg/pres"), vlib.T("plain/l1/cfg/mode"),
 }
 var uni = &vlib.Universe{Name: "sync", Tmpls: tmpls}
 var palette = []string{"eth1", "eth10", "eth1/1"}
@@ -74,6 +76,7 @@ type DevCase struct {
 	Blobs   bool        `json:"blobs,omitempty"`
 	Chunk   int         `json:"chunk,omitempty"`
 	NS      bool        `json:"ns,omitempty"` // netconf include-ns
+	Prefix  bool        `json:"prefix,omitempty"` // gNMI: notifications carry a prefix and relative paths
 	Initial []UpdSel    `json:"initial"`
 	Rounds  []DevChange `json:"rounds"`
 }
@@ -82,8 +85,9 @@ func genDev(t *rapid.T) *DevCase {
 	d := &DevCase{Kind: rapid.SampledFrom([]string{"netconf", "gnmi-get", "gnmi-stream", "gnmi-stream"}).Draw(t, "dev-kind")}
 	d.Enc = rapid.SampledFrom([]string{"json", "json_ietf", "proto", "ascii"}).Draw(t, "dev-enc")
 	d.Blobs = rapid.Bool().Draw(t, "dev-blobs")
-	d.Chunk = rapid.SampledFrom([]int{0, 0, 1, 2, 5}).Draw(t, "dev-chunk")
+	d.Chunk = rapid.SampledFrom([]int{0, 0, 1, 2, 5, -1, -1}).Draw(t, "dev-chunk")
 	d.NS = rapid.Bool().Draw(t, "dev-ns")
+	d.Prefix = rapid.Bool().Draw(t, "dev-prefix")
 	sel := func(label string, min, max int) []UpdSel {
 		var r []UpdSel
 		for _, ls := range vlib.GenLeafSels(t, uni, min, max, label) {
@@ -92,6 +96,14 @@ func genDev(t *rapid.T) *DevCase {
 		return r
 	}
 	d.Initial = sel("dev-init", 0, 8)
+	if rapid.IntRange(0, 2).Draw(t, "dev-sibling-pack") == 1 {
+		// several nodes below the same parents (depth two and three) of one list entry: notifications whose paths
+		// share a long prefix
+		k := rapid.IntRange(0, 2).Draw(t, "dev-pack-key")
+		for _, ti := range []int{28, 29, 8, 10} { // l1/cfg/pres, l1/cfg/mode, l1/descr, l1/mtu
+			d.Initial = append(d.Initial, UpdSel{Leaf: vlib.LeafSel{T: ti, K: []int{k}, V: rapid.IntRange(0, 2).Draw(t, "dev-pack-v")}, Form: "typed"})
+		}
+	}
 	for i, n := 0, rapid.IntRange(1, 3).Draw(t, "dev-rounds"); i < n; i++ {
 		ch := DevChange{Updates: sel("dev-upd", 0, 3)}
 		for j, nd := 0, rapid.IntRange(0, 2).Draw(t, "dev-nd"); j < nd; j++ {
